@@ -266,6 +266,48 @@ def swap_loop(ctx, rs):
     loops = [x for x in rs.body if isinstance(x, ast.While)]
     ok = False
     detail = ""
+    floops = [x for x in rs.body if isinstance(x, ast.For)]
+    if not loops and len(floops) == 1:
+        # for i, j in zip(range(lo, hi + 1), range(hi, lo - 1, -1)): if i > j: break   -- the two-ended walk as a paired iteration
+        fl = floops[0]
+        it = fl.iter
+        form = isinstance(it, ast.Call) and call_name(it) == "zip" and len(it.args) == 2 and all(isinstance(a, ast.Call) and call_name(a) == "range" for a in it.args) \
+            and isinstance(fl.target, ast.Tuple) and len(fl.target.elts) == 2 and all(isinstance(e, ast.Name) for e in fl.target.elts)
+        if form:
+            up, down = it.args
+            i_, j_ = fl.target.elts[0].id, fl.target.elts[1].id
+            try:
+                lo_v = [nm for nm, names_ in ((nm, idx.get(P[1], [])) for nm in [getattr(up.args[0], "id", None)]) if nm in names_]
+                hi_v = [nm for nm, names_ in ((nm, idx.get(P[2], [])) for nm in [getattr(down.args[0], "id", None)]) if nm in names_]
+                rng = len(up.args) == 2 and len(down.args) == 3 and bool(lo_v) and bool(hi_v) \
+                    and Alg().ev(up.args[1]) == atom(hi_v[0]) + const(1) and Alg().ev(down.args[1]) == atom(lo_v[0]) - const(1) and Alg().ev(down.args[2]) == const(-1)
+            except Uninterpreted:
+                rng = False
+            stop = [x for x in fl.body if isinstance(x, ast.If) and len(x.body) == 1 and isinstance(x.body[0], ast.Break) and isinstance(x.test, ast.Compare) and len(x.test.ops) == 1
+                    and isinstance(x.test.left, ast.Name) and isinstance(x.test.comparators[0], ast.Name)
+                    and ((x.test.left.id == i_ and x.test.comparators[0].id == j_ and isinstance(x.test.ops[0], ast.Gt)) or (x.test.left.id == j_ and x.test.comparators[0].id == i_ and isinstance(x.test.ops[0], ast.Lt)))]
+            body = [x for x in fl.body if x not in stop]
+            LST = "self._path._segments"
+            front = back = None
+            for x in body:
+                for tg, v in split_tuple_assign(x):
+                    if isinstance(tg, ast.Name) and al.canon(v) == "%s[%s]" % (LST, i_):
+                        front = tg.id
+                    if isinstance(tg, ast.Name) and al.canon(v) == "%s[%s]" % (LST, j_):
+                        back = tg.id
+
+            def rev_call_(x, who):
+                return isinstance(x, ast.Expr) and isinstance(x.value, ast.Call) and attr_chain(x.value.func) == [who, "reverse"]
+
+            uncond = any(rev_call_(x, front) for x in body)
+            guarded = [x for x in body if isinstance(x, ast.If) and isinstance(x.test, ast.Compare) and len(x.test.ops) == 1 and isinstance(x.test.ops[0], ast.IsNot)
+                       and {getattr(x.test.left, "id", None), getattr(x.test.comparators[0], "id", None)} == {front, back}]
+            swap = False
+            if len(guarded) == 1:
+                pairs = [(al.canon(tg), getattr(v, "id", None)) for x in guarded[0].body for tg, v in split_tuple_assign(x)]
+                swap = any(rev_call_(x, back) for x in guarded[0].body) and ("%s[%s]" % (LST, i_), back) in pairs and ("%s[%s]" % (LST, j_), front) in pairs
+            ok = rng and len(stop) == 1 and front is not None and back is not None and uncond and swap
+            detail = "paired ranges ok=%s stop test=%d front=%s back=%s unconditional reverse=%s guarded swap=%s" % (rng, len(stop), front, back, uncond, swap)
     if len(loops) == 1 and isinstance(loops[0].test, ast.Compare) and len(loops[0].test.ops) == 1 and isinstance(loops[0].test.left, ast.Name) and isinstance(loops[0].test.comparators[0], ast.Name):
         t = loops[0].test
         lo, hi = (t.left.id, t.comparators[0].id) if isinstance(t.ops[0], (ast.LtE, ast.Lt)) else (t.comparators[0].id, t.left.id)
